@@ -48,6 +48,8 @@ func goArgs(args ...string) []string {
 	return append(out, args[1:]...)
 }
 
+var crashFrameRe = regexp.MustCompile(`(?m)^github\.com/openfga/language/pkg/go/(graph|transformer|utils|validation)\.`)
+
 var frameRe = regexp.MustCompile(`(?m)^\s+(github\.com/openfga/language/pkg/go/[^\s(]+)\(`)
 
 func raceRun(run *core.Run, mix string, rounds int, repeats int) {
@@ -104,9 +106,61 @@ func raceRun(run *core.Run, mix string, rounds int, repeats int) {
 		)
 		out, err := cmd.CombinedOutput()
 		b, rerr := os.ReadFile(outFile)
+		scanRaceLogs := func() {
+			logs, _ := filepath.Glob(logPrefix + ".*")
+			sort.Strings(logs)
+			for _, lf := range logs {
+				lb, err := os.ReadFile(lf)
+				if err != nil {
+					continue
+				}
+				for _, block := range strings.Split(string(lb), "==================") {
+					if !strings.Contains(block, "WARNING: DATA RACE") {
+						continue
+					}
+					run.Count("race_reports_total", 1)
+					frames := frameRe.FindAllStringSubmatch(block, -1)
+					if len(frames) == 0 {
+						run.Count("race_reports_without_repo_frame", 1)
+						run.Note("race report without a frame of the repository:\n%s", clipStr(block, 1500))
+						continue
+					}
+					// de-duplicate by the pair of outermost repo frames of the two stacks
+					parts := strings.Split(block, "Previous ")
+					key := ""
+					for _, p := range parts[:min2(len(parts), 2)] {
+						fs := frameRe.FindAllStringSubmatch(p, -1)
+						if len(fs) > 0 {
+							key += fs[len(fs)-1][1] + " | "
+						}
+					}
+					if seen[key] {
+						continue
+					}
+					seen[key] = true
+					run.Violation("data-race:"+key, &core.Case{Kind: "race", Text: block, Extra: map[string]string{"mix": mix}}, "no data race in code reached from the repository", clipStr(block, 4000))
+				}
+			}
+		}
 		if rerr != nil {
-			run.Inconclusive("race workload did not finish (%v): %s", err, clipStr(string(out), 1500))
-			return
+			// the workload process died. Whatever the race detector had reported until then still counts; a panic or
+			// fatal error with a frame of the repository on its stack is the code under test failing under concurrency
+			scanRaceLogs()
+			txt := string(out)
+			if (strings.Contains(txt, "panic:") || strings.Contains(txt, "fatal error:")) && crashFrameRe.MatchString(txt) {
+				i := strings.Index(txt, "panic:")
+				if j := strings.Index(txt, "fatal error:"); i < 0 || (j >= 0 && j < i) {
+					i = j
+				}
+				run.Violation("crash-under-concurrency", &core.Case{Kind: "race", Text: clipStr(txt[i:], 6000), Extra: map[string]string{"mix": mix, "test": jb.test, "cold": jb.cold}},
+					"every call returns a result or an error, also while other goroutines call into the library", clipStr(txt[i:], 3000))
+				continue
+			}
+			if run.Counter("race_reports_total") == 0 {
+				run.Inconclusive("race workload did not finish (%v): %s", err, clipStr(string(out), 1500))
+				return
+			}
+			continue
 		}
 		var rr raceResult
 		if json.Unmarshal(b, &rr) != nil {
@@ -133,40 +187,7 @@ func raceRun(run *core.Run, mix string, rounds int, repeats int) {
 			run.Violation("concurrent-result-differs:"+mm.Mix, c, clipStr(mm.Expected, 3000), mm.Detail+"\n"+clipStr(mm.Observed, 3000))
 		}
 		// race reports
-		logs, _ := filepath.Glob(logPrefix + ".*")
-		sort.Strings(logs)
-		for _, lf := range logs {
-			lb, err := os.ReadFile(lf)
-			if err != nil {
-				continue
-			}
-			for _, block := range strings.Split(string(lb), "==================") {
-				if !strings.Contains(block, "WARNING: DATA RACE") {
-					continue
-				}
-				run.Count("race_reports_total", 1)
-				frames := frameRe.FindAllStringSubmatch(block, -1)
-				if len(frames) == 0 {
-					run.Count("race_reports_without_repo_frame", 1)
-					run.Note("race report without a frame of the repository:\n%s", clipStr(block, 1500))
-					continue
-				}
-				// de-duplicate by the pair of outermost repo frames of the two stacks
-				parts := strings.Split(block, "Previous ")
-				key := ""
-				for _, p := range parts[:min2(len(parts), 2)] {
-					fs := frameRe.FindAllStringSubmatch(p, -1)
-					if len(fs) > 0 {
-						key += fs[len(fs)-1][1] + " | "
-					}
-				}
-				if seen[key] {
-					continue
-				}
-				seen[key] = true
-				run.Violation("data-race:"+key, &core.Case{Kind: "race", Text: block, Extra: map[string]string{"mix": mix}}, "no data race in code reached from the repository", clipStr(block, 4000))
-			}
-		}
+		scanRaceLogs()
 		if err != nil && len(rr.Mismatches) == 0 && run.Counter("race_reports_total") == 0 {
 			run.Inconclusive("race workload exited with %v without a report: %s", err, clipStr(string(out), 1500))
 		}
